@@ -27,12 +27,12 @@ PopBack(D) ==
 
 Clear(D) == [blocks |-> <<>>, nfree |-> D.nfree + Len(D.blocks)]
 
-(* resize(newSize): both loops compare the counter with an expression that contains size() *)
+(* resize(newSize): the distance is fixed before the loops (repair 29ce248; the bounds used to contain size()) *)
 RECURSIVE GrowLoop(_, _, _)
-GrowLoop(D, i, newSize) == IF i < newSize - Size(D) THEN GrowLoop(PushBack(D, VecDefault), i + 1, newSize) ELSE D
+GrowLoop(D, i, newSize) == IF i < newSize THEN GrowLoop(PushBack(D, VecDefault), i + 1, newSize) ELSE D
 RECURSIVE ShrinkLoop(_, _, _)
-ShrinkLoop(D, i, newSize) == IF i < Size(D) - newSize THEN ShrinkLoop(PopBack(D), i + 1, newSize) ELSE D
-Resize(D, newSize) == IF newSize > Size(D) THEN GrowLoop(D, 0, newSize) ELSE ShrinkLoop(D, 0, newSize)
+ShrinkLoop(D, i, newSize) == IF i > newSize THEN ShrinkLoop(PopBack(D), i - 1, newSize) ELSE D
+Resize(D, newSize) == IF newSize > Size(D) THEN GrowLoop(D, Size(D), newSize) ELSE ShrinkLoop(D, Size(D), newSize)
 
 RECURSIVE PushAll(_, _)
 PushAll(D, s) == IF s = <<>> THEN D ELSE PushAll(PushBack(D, Head(s)), Tail(s))
@@ -52,7 +52,7 @@ WellFormed(D) ==
   /\ \A b \in 1..Len(D.blocks) : Len(D.blocks[b]) >= 1 /\ Len(D.blocks[b]) <= BlockSize
   /\ \A b \in 1..(Len(D.blocks) - 1) : Len(D.blocks[b]) = BlockSize
 
-(* ---- known deviation (known_findings: property C20, key deque-resize-half): the loop bound shrinks *)
-(* while the counter grows, so resize() covers only half (rounded up) of the distance                  *)
-KnownDeviation(D, op) == op.op = "resize" /\ (op.n > Size(D) + 1 \/ op.n + 1 < Size(D))
+(* ---- repaired path (known_findings key deque-resize-half, now "fixed"): resize over a distance of more than *)
+(* one element used to stop half way; the predicate only marks these transitions for replay on the real class   *)
+RepairedPath(D, op) == op.op = "resize" /\ (op.n > Size(D) + 1 \/ op.n + 1 < Size(D))
 =============================================================================
